@@ -413,6 +413,8 @@ func ruleC07(w *World, r *Report) {
 	ruleTranslatorBytes(w, r, "C07", "R07.8")
 	ruleStoredIsProgrammed(w, r, "C07", "R07.10")
 	ruleC07EverySessionsEntry(w, r)
+	ruleLocalSEIDArgs(w, r, "C07", "R07.12")
+	ruleEveryChooseGetsTEID(w, r, "C07", "R07.13")
 	ruleC07SEID(w, r)
 	ruleC07Reported(w, r, alloc)
 }
